@@ -165,6 +165,20 @@ def kind_ok(modname, fname, value):
     return isinstance(value, str), 'str'
 
 
+_bool_opts = {}
+
+
+def bool_options(f):
+    """[(name, default)] of the boolean keyword options of a getter"""
+    if f not in _bool_opts:
+        try:
+            ps = list(inspect.signature(f).parameters.values())[1:]
+        except (TypeError, ValueError):
+            ps = []
+        _bool_opts[f] = [(p.name, p.default) for p in ps if isinstance(p.default, bool)]
+    return _bool_opts[f]
+
+
 def consume(v, depth=0):
     """what a caller may do with a result: empty every list / dict / set reachable from it (tuples are walked)"""
     if depth > 4:
@@ -243,6 +257,19 @@ def check_number(ctx, modname, getters, x, today, enter=True):
                         except Exception:   # noqa: B902
                             break
                         consume(out.value)
+            # boolean keyword options of the getter, flipped: total and kind hold under every option value
+            for oname, odefault in bool_options(f):
+                okw = {oname: not odefault}
+                out = E.call(f, v, **okw)
+                ctx.tick('getter:%s.%s' % (modname.replace('stdnum.', ''), fname), 'outcome:' + out.kind, 'arg:option')
+                if out.kind == 'exc':
+                    ctx.fail(modname, fname, v, today, out.show() + ' on a number accepted by validate() with %s=%r' % (oname, okw[oname]),
+                             'a value or a ValidationError', 'total', site=out.site, kwargs_plain=okw)
+                elif out.kind == 'ok':
+                    ok, want = kind_ok(modname, fname, out.value)
+                    if not ok:
+                        ctx.fail(modname, fname, v, today, out.show() + ' with %s=%r' % (oname, okw[oname]), want, 'kind',
+                                 site=E.value_site(modname, fname, 'kind[%s=%r]' % (oname, okw[oname])), kwargs_plain=okw)
             a, b = results.get((fname, 'canonical')), results.get((fname, 'raw'))
             if a is not None and b is not None and a.kind != 'exc' and b.kind != 'exc':
                 ctx.tick('relation:presentation-independent')
